@@ -269,7 +269,7 @@ def javac_rounds(ctx, jr, cases, frames, max_rounds=6):
     alive = {cls: list(cs) for cls, cs in by_cls.items()}
     jr.write("VfDriver.java", DRIVER)
     for rnd in range(max_rounds):
-        files = ["VfDriver.java"] if rnd == 0 else []
+        files = ["VfDriver.java"]   # in every round: javac writes no class file at all when any file has an error
         linemap = {}
         for cls, cs in alive.items():
             if not cs:
@@ -528,6 +528,15 @@ def subject_mechanism(m, symptom, src, failing_subjects=()):
 # Root-cause groups established by hand triage of the single-subject pools (first match wins). A structural subject that fails and is
 # not listed here gets "<kind>-<subject>" as its own mechanism, so a new defect never hides under an old name.
 STRUCT_GROUPS = [
+    (r"nest:do-while/(while-top|while-bottom|do-while)", "loop-nested-in-do-while-misstructured"),
+    (r"ret-in:(packed|sparse)-switch/if(-else)?", "switch-case-with-if-return-loses-break"),
+    (r"switch:(packed|sparse):empty-cases-empty-default@(top|nested)", "switch-empty-cases-printed-twice-duplicate-case-label"),
+    (r"switch:(packed|sparse):fallthrough(-into-return)?@nested", "switch-fallthrough-wrong-follow-when-nested"),
+    (r"switch:(packed|sparse):if-return-falls-into-next-case@(top|nested)", "switch-case-label-lost-after-if-return-fallthrough"),
+    (r"decl:dead-stmt-uses-local", "declaration-left-in-one-branch-after-dead-use-removed"),
+    (r"decl:def-only-in-do-while-body", "declaration-inside-do-while-body-but-used-after-loop"),
+    (r"throw:div-or-rem", "div-by-zero-exception-lost-division-moved-into-branch"),
+    (r"type:int-to-(byte|char|short):mixed-defs", "int-variable-declared-with-narrow-cast-type"),
 ]
 
 
@@ -768,6 +777,9 @@ def run(ctx):
             table.setdefault(subj, {}).update(d)
     ctx.extra["bad_features"] = table
     pools = QUICK_POOLS if ctx.quick else THOROUGH_POOLS
+    scale = float(os.environ.get("VERIF_C21_SCALE", "1"))   # development aid: shrink/grow the random pools
+    if scale != 1:
+        pools = {k: max(10, int(v * scale)) for k, v in pools.items()}
     args = []
     for pool, n in pools.items():
         k = 0
